@@ -26,10 +26,15 @@ import (
 	"fmt"
 	"math"
 	"os"
+	"os/exec"
 	"reflect"
+	"regexp"
+	"runtime"
 	"sort"
 	"strconv"
 	"strings"
+	"sync/atomic"
+	"syscall"
 	"testing"
 	"time"
 )
@@ -844,6 +849,93 @@ func vEq(a, b any) bool {
 	return reflect.DeepEqual(a, b)
 }
 
+// ---- guarded probe of a DOUBLING reference cycle (finding C12-EXPCYCLE) -----------------------------------
+// X = "${env:X}${env:X}": every round doubles the string, so the bound of 1000 rounds would be reached only after
+// 2^1000 characters.  The probe runs in a CHILD process (this test binary re-executed) under three guards: a
+// watchdog that exits as soon as the Go runtime holds more than 300 MiB, RLIMIT_AS = 2 GiB, and the parent's
+// deadline.  It can therefore not take the machine down.  The child is skipped unless VERIF_C12_CHILD=1.
+type vCycleProv struct {
+	scheme string
+	rounds *int64
+}
+
+func (p vCycleProv) Retrieve(_ context.Context, uri string, _ WatcherFunc) (*Retrieved, error) {
+	if uri == "env:X" {
+		atomic.AddInt64(p.rounds, 1)
+		return NewRetrieved("${env:X}${env:X}")
+	}
+	return NewRetrieved(map[string]any{"k": "${env:X}"})
+}
+func (p vCycleProv) Scheme() string                 { return p.scheme }
+func (p vCycleProv) Shutdown(context.Context) error { return nil }
+
+func TestVerifC12ExpCycleChild(t *testing.T) {
+	if os.Getenv("VERIF_C12_CHILD") != "1" {
+		t.Skip("child of TestVerifC12 only")
+	}
+	lim := uint64(2 << 30)
+	_ = syscall.Setrlimit(syscall.RLIMIT_AS, &syscall.Rlimit{Cur: lim, Max: lim})
+	var n int64
+	go func() {
+		var ms runtime.MemStats
+		for {
+			runtime.ReadMemStats(&ms)
+			if ms.Sys > 300<<20 {
+				fmt.Printf("\nVERIF-MEMLIMIT rounds=%d sysMiB=%d\n", atomic.LoadInt64(&n), ms.Sys>>20)
+				os.Exit(3)
+			}
+			time.Sleep(2 * time.Millisecond)
+		}
+	}()
+	r, err := NewResolver(ResolverSettings{URIs: []string{"src:0"}, DefaultScheme: "env", ProviderFactories: []ProviderFactory{
+		NewProviderFactory(func(ProviderSettings) Provider { return vCycleProv{"src", &n} }),
+		NewProviderFactory(func(ProviderSettings) Provider { return vCycleProv{"env", &n} }),
+	}})
+	if err != nil {
+		t.Fatal(err)
+	}
+	_, err = r.Resolve(context.Background())
+	fmt.Printf("\nVERIF-RETURNED rounds=%d toomany=%v err=%v\n", atomic.LoadInt64(&n), errors.Is(err, errTooManyRecursiveExpansions), err != nil)
+}
+
+func vProbeDoublingCycle(out *vOut, st map[string]int) {
+	ctx, cancel := context.WithTimeout(context.Background(), 180*time.Second)
+	defer cancel()
+	cmd := exec.CommandContext(ctx, os.Args[0], "-test.run=^TestVerifC12ExpCycleChild$", "-test.count=1")
+	for _, e := range os.Environ() {
+		if !strings.HasPrefix(e, "VERIF_OUT=") {
+			cmd.Env = append(cmd.Env, e)
+		}
+	}
+	cmd.Env = append(cmd.Env, "VERIF_C12_CHILD=1", "GOMAXPROCS=2")
+	b, _ := cmd.CombinedOutput()
+	txt := string(b)
+	// the term names the configuration; the source value k = "${env:X}" is left out of the term on purpose: the
+	// model needs 2^1000 characters too, nobody should evaluate it
+	term := `(("env"%string, ["src"%string; "env"%string], [("env:X"%string, (WPVal (WStr "${env:X}${env:X}"%string) None))]), [(WMap [])], (WObsErr 97))`
+	st["doubling-cycle-probe"]++
+	if m := regexp.MustCompile(`VERIF-RETURNED rounds=(\d+) toomany=(true|false) err=(true|false)`).FindStringSubmatch(txt); m != nil {
+		st["doubling-cycle-returned"]++
+		if m[2] != "true" {
+			out.Oracle("cycle-not-reported", term, "doubling cycle X=\"${env:X}${env:X}\", k=\"${env:X}\": Resolve returned after "+m[1]+" rounds without 'too many recursive expansions'")
+		}
+		return
+	}
+	if m := regexp.MustCompile(`VERIF-MEMLIMIT rounds=(\d+) sysMiB=(\d+)`).FindStringSubmatch(txt); m != nil {
+		out.Oracle("cycle-exhausts-memory", term, "doubling cycle X=\"${env:X}${env:X}\", k=\"${env:X}\": stopped by the memory guard after "+m[1]+" rounds of 1000 holding "+m[2]+" MiB (the text doubles every round); no 'too many recursive expansions' is ever reported")
+		return
+	}
+	if strings.Contains(txt, "out of memory") || strings.Contains(txt, "cannot allocate memory") {
+		out.Oracle("cycle-exhausts-memory", term, "doubling cycle X=\"${env:X}${env:X}\", k=\"${env:X}\": stopped by the memory guard (RLIMIT_AS) after an unknown number of rounds of 1000; no 'too many recursive expansions' is ever reported")
+		return
+	}
+	tail := txt
+	if len(tail) > 300 {
+		tail = tail[len(tail)-300:]
+	}
+	out.Oracle("resolve-does-not-terminate", term, "doubling cycle probe: the child neither returned nor hit the memory guard within 180 s: "+strings.ReplaceAll(tail, "\t", " "))
+}
+
 // ---- the test -------------------------------------------------------------------------------------------------
 func TestVerifC12(t *testing.T) {
 	out := vOpen()
@@ -934,6 +1026,9 @@ func TestVerifC12(t *testing.T) {
 			}
 		}
 	}
+
+	// -- guarded probe: a reference cycle that doubles per round (1 case, child process)
+	vProbeDoublingCycle(out, st)
 
 	// -- family 1: token strings
 	nTok := vBudget(450, 12)
